@@ -192,6 +192,10 @@ def gen_regex(r, op, pool):
             out.append(".")
         elif x < 0.13 and ch.isdigit():
             out.append("\\d")
+        elif x < 0.15 and not ch.isdigit():
+            out.append("\\D")
+        elif x < 0.16 and not ch.isspace():
+            out.append("\\S")
         elif x < 0.17 and (ch.isalnum() or ch == "_"):
             out.append("\\w")
         elif x < 0.21 and ch.isalpha() and ch.isascii():
@@ -224,6 +228,66 @@ def gen_regex(r, op, pool):
     except re.error:
         p = re.escape(sub)
     return p or "x"
+
+
+SYNTAX_ESCAPES = "dDwWsSbB"  # letters whose case is regex syntax even under IGNORECASE
+SIBLINGS = [["u", "d", "src", "dst", "marker", ""], ["meta", "comment"], ["b", "bq", "bs"], ["h", "hq", "hs"], ["t", "tq", "ts", "m"]]
+
+
+def case_variant(r, p):
+    """A regex that differs from p only in letter case: escape letters \\d \\w \\s \\b are swapped with their
+    upper-case (complement) forms and literal letters change case.  Returns None if no valid different variant results."""
+    out = []
+    i = 0
+    swapped = False
+    while i < len(p):
+        ch = p[i]
+        if ch == "\\" and i + 1 < len(p):
+            nx = p[i + 1]
+            if nx in SYNTAX_ESCAPES and r.random() < 0.75:
+                nx = nx.swapcase()
+                swapped = True
+            out.append(ch + nx)
+            i += 2
+            continue
+        if ch.isalpha() and ch.isascii() and r.random() < 0.3:
+            ch = ch.swapcase()
+        out.append(ch)
+        i += 1
+    q = "".join(out)
+    if q == p or q.lower() != p.lower():
+        return None
+    try:
+        re.compile(q)
+        re.compile(q.encode("utf8"))
+    except re.error:
+        return None
+    return q
+
+
+def variant_ast(r, ast):
+    """Same tree; every regex argument replaced by a case variant where one exists, operators sometimes replaced by a
+    sibling that looks at the same kind of data.  -> (ast, number of changed leaves)"""
+    k = ast[0]
+    if k == "leaf":
+        op, arg = ast[1], ast[2]
+        if not isinstance(arg, str):
+            return ast, 0
+        q = case_variant(r, arg)
+        if q is None:
+            return ast, 0
+        if r.random() < 0.3:
+            op = r.choice(next(g for g in SIBLINGS if op in g))
+        return ("leaf", op, q), 1
+    if k == "not":
+        sub, n = variant_ast(r, ast[1])
+        return ("not", sub), n
+    kids, n = [], 0
+    for c in ast[1]:
+        sub, m = variant_ast(r, c)
+        kids.append(sub)
+        n += m
+    return (k, kids), n
 
 
 # ---------------------------------------------------------------------------------------------
